@@ -1080,6 +1080,9 @@ def driver_appends_only(ctx, rid, crates):
         ctx.inst(rid, "drivers", None, "no format driver was found", None)
 
 
+VERDICTS = {}   # (function, 'index' | 'remove' | 'swap_remove') -> verdicts of its constant-position sites (read by C01.R9)
+
+
 def constant_indexes(ctx, rid, crates, skip_fns=()):
     """`x[k]` with a literal k outside the built-in argument vectors: the conditions evaluated *before* the index (an enclosing `if`, the
     left operand of `&&`) bound the length of the same collection (or of the collection it was mapped from)"""
@@ -1147,6 +1150,7 @@ def constant_indexes(ctx, rid, crates, skip_fns=()):
         return out
 
     n_sites = 0
+    VERDICTS.clear()
     for cr in crates:
         for name, f in sorted(cr.hir.items()):
             if f.get("body") is None or "::tests::" in name or "parse::rules" in name or "::_::" in name or name in skip_fns:
@@ -1167,6 +1171,9 @@ def constant_indexes(ctx, rid, crates, skip_fns=()):
                 k = H.kind(n)
                 if k == "Index" and H.lit(n["i"]) and H.lit(n["i"])["lk"] == "int":
                     sites.append((n, list(guards), list(late)))
+                if k == "MethodCall" and n["name"] in ("remove", "swap_remove") and len(n.get("args", [])) == 1 and H.lit(n["args"][0]) and H.lit(n["args"][0])["lk"] == "int" and "Vec<" in (n.get("recv_ty") or H.strip(n["recv"]).get("ty") or ""):
+                    # `v.remove(k)` panics like `v[k]`: the same obligation
+                    sites.append(({"k": "Index", "e": n["recv"], "i": n["args"][0], "sp": n.get("sp"), "_what": n["name"]}, list(guards), list(late)))
                 if k == "If":
                     go(n["cond"], guards, late)
                     go(n["then"], guards + [(n["cond"], True)], late)
@@ -1213,7 +1220,8 @@ def constant_indexes(ctx, rid, crates, skip_fns=()):
                     v, d = False, "the test that bounds the length (>= %d) is evaluated after the index [%d] in the same condition: an empty collection panics first" % (max(too_late), k_)
                 else:
                     v, d = None, "no length test on the indexed collection was found before index %d (may hold by construction)" % k_
-                ctx.inst(rid, "%s#index[%d]@%d" % (name.replace("blots_core::", ""), k_, i), v, d, H.loc(n))
+                ctx.inst(rid, "%s#%s[%d]@%d" % (name.replace("blots_core::", ""), n.get("_what", "index"), k_, i), v, d, H.loc(n))
+                VERDICTS.setdefault((name, n.get("_what", "index")), []).append(v)
     ctx.units["constant_index_sites_outside_builtins"] = n_sites
 
 
